@@ -101,6 +101,8 @@ def check_case(case, stats=None):
     try:
         r1 = comp.compile_code(src, o1)
     except BaseException as e:
+        if type(e).__name__ == "_CaseTimeout":
+            raise  # the runner's watchdog, not an exception of compile_code
         raise Violation("C15:compile_code-raises:" + type(e).__name__, {"error": repr(e)[:300], "caller": caller})
     if o1 != before:
         raise Violation("C15:caller-options-object-modified", {"before": vars(before), "after": vars(o1)})
